@@ -132,8 +132,18 @@ fn start_server(executor: &Arc<safina::executor::Executor>, small: usize, cache_
             RequestBody::StaticStr(s) => ("Mem", s.len() as u64, dg(s.as_bytes())),
             RequestBody::StaticBytes(b) => ("Mem", b.len() as u64, dg(b)),
             RequestBody::TempFile(..) | RequestBody::File(..) => {
+                // the three ways a handler reads an uploaded file: the blocking reader, the async reader, the conversion
                 let mut v = Vec::new();
-                req.body.reader().unwrap().read_to_end(&mut v).unwrap();
+                match req.remote_addr.port() % 3 {
+                    0 => {
+                        req.body.reader().unwrap().read_to_end(&mut v).unwrap();
+                    }
+                    1 => futures_lite::future::block_on(async {
+                        use futures_lite::AsyncReadExt;
+                        req.body.async_reader().await.unwrap().read_to_end(&mut v).await.unwrap();
+                    }),
+                    _ => v = Vec::<u8>::try_from(req.body.clone()).unwrap(),
+                }
                 ("File", v.len() as u64, dg(&v))
             }
         };
